@@ -12,7 +12,7 @@ CONSTANTS S,          \* common denominator of the pool
 VARIABLES phase, raw, deg, fam
 
 (* family sets substituted for Families in the configurations                     *)
-FamQuick == {<<2, 4, {1, 2, 3}>>, <<2, 5, {3, 4}>>, <<1, 3, {1, 2}>>}
+FamQuick == {<<2, 4, {1, 2, 3}>>, <<2, 5, {4}>>, <<1, 3, {1, 2}>>}
 FamFull == {<<2, 6, {4}>>, <<1, 6, {1, 2, 3}>>}
 FamGuard == {<<4, 4, {1, 2, 3}>>}
 vars == <<phase, raw, deg, fam>>
